@@ -3,7 +3,7 @@ import ast
 
 from sa.cfg import cfg_of
 from sa.program import norm, own_nodes, const_str
-from sa.util import cfg_node_of, enclosing_loops, self_calls_in
+from sa.util import cfg_node_of, derives_from, enclosing_loops, self_calls_in
 from . import shared
 from .roles import CONFIG_ATTR, VIEWS, roles
 
@@ -28,6 +28,39 @@ def run(ctx):
         arg_ok = all(call.args and norm(call.args[0]) == xt.params[1] for call in rec)
         c.ob("R1", arg_ok, xt, "record-gets-full-exit-set", "the whole exit set is handed to _record_history" if arg_ok else
              "_record_history is not given the complete list of exiting states", rec[0])
+    # ---- R6 the history target is resolved before the exit phase overwrites the record ------
+    for v in VIEWS:
+        ex = roles(ctx, v).executor
+        g = cfg_of(ex.node)
+        rn = [n for call in self_calls_in(ex, "_resolve_history_target") for n in cfg_node_of(ex, call)]
+        xn = [n for call in self_calls_in(ex, "_exit_states") for n in cfg_node_of(ex, call)]
+        c.floor("R6", f"history resolution / exit sites in {ex.short}", min(len(rn), len(xn)), 1)
+        late = [r_ for r_ in rn if any(g.can_reach(x_, r_, follow_exc=False) for x_ in xn)]
+        c.ob("R6", not late, ex, "resolve-history-before-exit",
+             "the remembered configuration is read before _exit_states (which re-records history) runs" if not late else
+             "_resolve_history_target is reachable after _exit_states: the exit phase has just re-recorded the parent's history, so a history "
+             "transition taken from inside the parent restores the child it is leaving instead of the remembered one", g.nodes[late[0]].ast if late else ex.node)
+    # ---- R7 shallow / deep selection structure -------------------------------------------------
+    rh = p.method("BaseInterpreter", "_resolve_history_target")
+    deep_tests = [x for x in own_nodes(rh.node) if isinstance(x, ast.If) and "history" in norm(x.test) and "'deep'" in norm(x.test)]
+    c.ob("R7", bool(deep_tests), rh, "deep-branch", "deep and shallow history are distinguished by the history kind" if deep_tests else
+         "_resolve_history_target no longer branches on history == 'deep': both kinds restore the same thing", rh.node)
+    if deep_tests:
+        dt = deep_tests[0]
+        leaves = [x for x in ast.walk(dt) if isinstance(x, ast.ListComp) and ("is_atomic" in norm(x) or "not node.states" in norm(x) or "is_final" in norm(x))]
+        c.ob("R7", bool(leaves), rh, "deep-restores-leaves", "deep history restores the remembered leaves" if leaves else
+             "the deep-history branch no longer selects the remembered leaf states", dt)
+    hparam = rh.params[1]
+    shallow = [x for x in own_nodes(rh.node) if isinstance(x, ast.ListComp) and any(
+        isinstance(y, ast.Compare) and isinstance(y.ops[0], (ast.Is, ast.Eq)) and ".parent" in norm(y.left) for cnd in x.generators[0].ifs for y in [cnd])]
+    ok = False
+    for x in shallow:
+        cnd = x.generators[0].ifs[0]
+        rhs = cnd.comparators[0]
+        if derives_from(rh, rhs, {hparam}):
+            ok = True
+    c.ob("R7", ok, rh, "shallow-restores-direct-child", "shallow history restores the remembered direct child of the history node's parent" if ok else
+         "the shallow-history branch no longer filters the remembered states to direct children of the history node's parent", rh.node)
     # ---- R2 / R3 ---------------------------------------------------------------------
     shared.history_target_nonempty(ctx, "R2")
     shared.single_history_entry(ctx, "R3")
